@@ -4,6 +4,7 @@ import QuillModel.Pattern.Meta
 import QuillModel.Pattern.Fuel
 import QuillModel.Pattern.Dup
 import QuillModel.Pattern.Calls
+import QuillModel.Pattern.Sinks
 /-!
 # C12 — the line handed to a sink equals the pattern with every attribute substituted
 
@@ -396,6 +397,61 @@ theorem C12_memoised_time_fails :
       [.line "[  time] m\n".toList, .line "[  time] m\n".toList, .line "[     7] m\n".toList, .line "[     0] m\n".toList] ∧
     formatCalls false "[%(time:>6)] %(message)".toList digits memoWitnessCalls =
       [.line "[     0] m\n".toList, .line "[     0] m\n".toList, .line "[     7] m\n".toList, .line "[     0] m\n".toList] := by
+  decide
+
+/-! ## Which pattern applies: the sink's override if it has one, else its logger's
+
+`Pattern/Sinks.lean`: the backend shares one `PatternFormatter` between loggers with equal options and keeps, per
+sink, an override formatter; `BState` is what it remembers between dispatches. For the pinned code that memory never
+shows: the pattern a sink is served with is `patternFor sink logger`, whatever loggers were dispatched before and
+whichever of them share options. -/
+
+/-- the (sink, pattern) pairs of a dispatch are the rule's, in every backend state -/
+theorem C12_sink_pattern_rule (cfg : Config) (st : BState) (l : Nat) :
+    (dispatch1 false cfg st l).2 = ruleFor cfg l := dispatch1_pinned cfg st l
+
+/-- … hence for every history of dispatches (every order of first use), from every starting state -/
+theorem C12_sink_pattern_independent_of_history (cfg : Config) (ls : List Nat) (st st' : BState) :
+    runHistory false cfg st ls = ls.map (ruleFor cfg) ∧ runHistory false cfg st ls = runHistory false cfg st' ls := by
+  rw [runHistory_pinned, runHistory_pinned]
+  exact ⟨rfl, rfl⟩
+
+/-- the statements a sink receives for a log call are `statements (patternFor sink logger) …` — the logger's multi-line
+    flag decides the split, each piece is the sink's pattern formatted (`C12_statements_partial` says what that is) —
+    in every backend state -/
+theorem C12_sink_lines (cfg : Config) (st : BState) (l : Nat) (lg : LoggerCfg) (hl : cfg.loggers[l]? = some lg)
+    (stmt : Stmt) (mv : MetaView) (msg : Str) :
+    callLines false cfg st l stmt mv msg =
+      lg.sinks.filterMap fun k => (cfg.sinks[k]?).map fun sk => (k, statements (patternFor sk lg) stmt mv lg.opts.ml msg) := by
+  unfold callLines
+  rw [hl, dispatch1_pinned]
+  unfold ruleFor
+  rw [hl]
+  simp only [List.map_filterMap, Option.map_map]
+  rfl
+
+/-- two loggers with equal options, the second with a sink that carries an override -/
+def overrideWitness : Config :=
+  { loggers := [{ opts := ⟨"L %(message)".toList, true⟩, sinks := [0] }, { opts := ⟨"L %(message)".toList, true⟩, sinks := [0, 1] }]
+    sinks := [{ override := none }, { override := some ⟨"OV %(message)".toList, true⟩ }] }
+
+example : (overrideWitness.loggers.map (·.opts)).Nodup = False ∧ hasOverride overrideWitness 1 = true := by decide
+
+/-- **Why the override must be looked up per sink on the write path** (extracted as `overrideChosenOnWritePath`, obligation
+    `pattern_backend_facts`): when the override formatters are created only where the logger's formatter is *created*,
+    a logger that *shares* the formatter of an earlier logger never gets them — sink 1 is served with the logger's
+    pattern if logger 0 was dispatched first and with its override if logger 1 was; the pinned code serves the override
+    either way. -/
+theorem C12_override_hoisted_fails :
+    runHistory true overrideWitness .init [0, 1, 1] =
+      [[(0, "L %(message)".toList)], [(0, "L %(message)".toList), (1, "L %(message)".toList)],
+       [(0, "L %(message)".toList), (1, "L %(message)".toList)]] ∧
+    runHistory true overrideWitness .init [1, 0, 1] =
+      [[(0, "L %(message)".toList), (1, "OV %(message)".toList)], [(0, "L %(message)".toList)],
+       [(0, "L %(message)".toList), (1, "OV %(message)".toList)]] ∧
+    runHistory false overrideWitness .init [0, 1, 1] =
+      [[(0, "L %(message)".toList)], [(0, "L %(message)".toList), (1, "OV %(message)".toList)],
+       [(0, "L %(message)".toList), (1, "OV %(message)".toList)]] := by
   decide
 
 /-! ## Runtime metadata -/
